@@ -66,7 +66,7 @@ def cases(tier, seed):
         o = scat.gen_optics(rng)
         k = scat.kmed(o)
         r = float(rng.uniform(0.5, 1.3)) / k
-        frac = [1 - 1e-9, 0.99, 0.9, 1 + 1e-9, 1.05, 0.75][i % 6]
+        frac = [1 - 1e-7, 0.99, 0.9, 1 + 1e-7, 1.05, 0.75][i % 6]          # (the rule carries a relative tolerance of 1e-9 since F121: 1e-7 is clear of it on either side)
         leg = 30.0 * r * frac / math.sqrt(2.0)          # two legs at right angles: the hypotenuse is the largest separation
         th0 = float(rng.uniform(0, 2 * math.pi))
         e1 = np.array([math.cos(th0), math.sin(th0), 0.0]); e2 = np.array([-math.sin(th0), math.cos(th0), 0.0])
